@@ -381,11 +381,19 @@ def oracleC09 (nc : NumCodec) (a b : Json) (d : Diff) (implText : Outcome String
         if !(ops.all (fun o => o.op == "test" || o.op == "remove" || o.op == "add")) then
           "fail unexpected operation in the rendered patch"
         else
+          -- KF-C04-alias in the list reading: the LCS matches elements by hash code, so an alias pair ("AAAAAAAA" and the
+          -- number with that bit pattern) makes Diff emit hunks that do not describe a -> b; the known finding explains a
+          -- failure only when the diff is the one the model of the unchanged code produces
+          let aliasKF : Bool := !(aliasFree [] (hashedNodes a ++ hashedNodes b)) && encDiff d == encDiff (diffM [] a b)
           match eval a ops with
-          | none => (if expressible d then "fail" else "fail (inexpressible path mistranslated)") ++
+          | none =>
+            if aliasKF then "kf KF-C04-alias RFC 6902 evaluation of the rendered patch on a fails" else
+            (if expressible d then "fail" else "fail (inexpressible path mistranslated)") ++
               " RFC 6902 evaluation of the rendered patch on a fails"
           | some r =>
-            if !(specEq r b) then "fail RFC 6902 evaluation of the rendered patch on a does not yield b"
+            if !(specEq r b) then
+              (if aliasKF then "kf KF-C04-alias RFC 6902 evaluation of the rendered patch on a does not yield b"
+               else "fail RFC 6902 evaluation of the rendered patch on a does not yield b")
             else
               match targets.find? (fun (c, nat) => match nat with
                   | .ok rc => (match eval c ops with | some r' => !(specEq r' rc) | none => true)
@@ -420,7 +428,14 @@ def oracleC11 (nc : NumCodec) (o : Opts) (a b : Json) (implText : Outcome String
        if equivB o r b then "ok"
        else if setMode o && !(aliasFree o (hashedNodes a ++ hashedNodes b)) then "kf KF-C04-alias MergePatch(a, patch) is not b"
        else "fail MergePatch(a, patch) = " ++ encNode r ++ " is not b")
-  | .err => "fail RenderMerge returned an error"
+  | .err =>
+    -- under SetKeys a hash alias inside a keyed member ("" / []) makes two members clash: Diff emits a merge hunk below
+    -- a keyed path element, which RenderMerge refuses (theorem: RenderMerge succeeds iff no clash); the known finding
+    -- explains the refusal only when the model of the unchanged code refuses as well
+    if !(aliasFree o (hashedNodes a ++ hashedNodes b)) &&
+        (match renderMergeM nc (diffM o a b) with | .err => true | _ => false) then
+      "kf KF-C04-alias RenderMerge returned an error"
+    else "fail RenderMerge returned an error"
   | .panic => "fail RenderMerge panicked"
 
 mutual
